@@ -410,8 +410,8 @@ def run(ctx):
             step = 16384
             for lo in range(-2 ** 17, 2 ** 17, step):
                 jobs.append(("num", {"MODE": "numwide", "SWEEPLO": lo, "SWEEPHI": lo + step - 1}))
-            for lo in range(0, 256, 16):
-                jobs.append(("str", {"MODE": "strwide", "SWEEPLO": lo, "SWEEPHI": lo + 15}))
+            for lo in range(0, 256, 8):       # 8 x 256 x 256 strings per job (TLC refuses to build sets above 10^6 elements)
+                jobs.append(("str", {"MODE": "strwide", "SWEEPLO": lo, "SWEEPHI": lo + 7}))
 
         def mk(kind, env):
             e = {"SHALLOW": shallow, "DEEP": deep, "SWEEPLO": 0, "SWEEPHI": 0}
